@@ -1023,8 +1023,39 @@ def extract_session_order2(out: Out, srcs):
                "handed to _send_pubrel() (whose failure must not make the client forget the PUBREC)")
 
 
+def extract_session_order3(out: Out, srcs):
+    c = srcs.get("client.py")
+    if c is None:
+        return
+    F = "SessionOrder"
+
+    def pubrel_shape():
+        """_handle_pubrel: the stored message is removed (pop) under `if mid in self._in_messages`, delivered afterwards when one was
+        removed, and the tail is exactly `if self._manual_ack: return SUCCESS else: return self._send_pubcomp(mid)` - the PUBCOMP
+        depends on manual_ack only, never on whether the id was known"""
+        f = c.func("Client._handle_pubrel")
+        top = [st for st in f.body if not (isinstance(st, ast.Expr) and isinstance(st.value, ast.Constant))]
+        pops = [n for n in walk(f, ast.Call) if isinstance(n.func, ast.Attribute) and n.func.attr == "pop" and unparse(n.func.value) == "self._in_messages"]
+        delivers = [n for n in walk(f, ast.Call) if isinstance(n.func, ast.Attribute) and n.func.attr == "_handle_on_message"]
+        comps = [n for n in walk(f, ast.Call) if isinstance(n.func, ast.Attribute) and n.func.attr == "_send_pubcomp"]
+        if len(pops) != 1 or len(delivers) != 1 or len(comps) != 1 or not pops[0].lineno < delivers[0].lineno < comps[0].lineno:
+            raise Missing("_handle_pubrel: pop / deliver / PUBCOMP order")
+        last = top[-1]
+        if not (isinstance(last, ast.If) and unparse(last.test) == "self._manual_ack" and len(last.body) == 1 and isinstance(last.body[0], ast.Return)
+                and len(last.orelse) == 1 and isinstance(last.orelse[0], ast.Return) and unparse(last.orelse[0].value) == "self._send_pubcomp(mid)"):
+            raise Missing(f"_handle_pubrel: tail is not `if self._manual_ack: return ... else: return self._send_pubcomp(mid)`: {unparse(last)[:80]}")
+        deliver_if = [st for st in top if isinstance(st, ast.If) and unparse(st.test) == "message is not None"]
+        if len(deliver_if) != 1 or deliver_if[0].orelse or len(deliver_if[0].body) != 1:
+            raise Missing("_handle_pubrel: `if message is not None: self._handle_on_message(message)`")
+        return True
+    out.anchor(F, "handlePubrelShapeOk", "Bool", pubrel_shape,
+               "client.py Client._handle_pubrel: pop under `mid in _in_messages`, then delivery of what was removed, then PUBCOMP unless manual_ack "
+               "(the PUBCOMP does not depend on whether the id was known)")
+
+
 EXTRACTORS.append(extract_session_order)
 EXTRACTORS.append(extract_session_order2)
+EXTRACTORS.append(extract_session_order3)
 
 
 def run(write=True):
